@@ -305,7 +305,7 @@ func runLifeMode(mode string, r *vlib.Rand, keys map[string]struct{}) {
 		n := int64(0)
 		for _, client := range []bool{false, true} {
 			for _, call := range []int{vsys.CEpollCreate, vsys.CEventfd, vsys.CEpollAdd} {
-				for k := int64(1); k <= 3; k++ {
+				for k := int64(1); k <= 3 && vsys.Shimmed; k++ {
 					c := cfg{Loops: 2, Net: "tcp", RCap: 1024, WCap: 1024, ReusePort: k%2 == 0}
 					if runStartFailCase(c, res.Seed+uint64(k), call, k, client, keys) {
 						n++
